@@ -404,6 +404,22 @@ type ccSession struct {
 	store     db.Db
 	dead      bool
 	steps     []ccStep
+	first     []ccFres // script of this session's entry function (engine.WithFirst); nil: none
+}
+
+// give the session ITS entry function (before the first request).  The function follows the script
+// conventions of the engine driver: call n answers with script[n mod len], counted under "_first" in the
+// session's own world; a mix-up between sessions shows in the calls, the flags, the cache's last value and,
+// when the script sets TERMINATE, in the output
+func (s *ccSession) withFirst(script []ccFres) *ccSession {
+	if len(script) == 0 {
+		return s
+	}
+	s.first = script
+	if !s.persisted {
+		s.en = s.en.WithFirst(ccScripted(s.w, "_first", script))
+	}
+	return s
 }
 
 func ccNewSession(a *ccApp, c *ccCfg, sh *ccShared, id int, persisted bool) (*ccSession, error) {
@@ -446,6 +462,9 @@ func (s *ccSession) request(in []byte) bool {
 	if s.persisted {
 		pe = persist.NewPersister(s.store)
 		en = engine.NewEngine(s.cfg, s.rs).WithPersister(pe)
+		if s.first != nil {
+			en = en.WithFirst(ccScripted(s.w, "_first", s.first))
+		}
 	}
 	panicked, pv := hx.Recover(func() {
 		c, err := en.Exec(ctx, in)
@@ -499,7 +518,11 @@ func (s *ccSession) obsTerm() string {
 	for i, x := range s.steps {
 		st[i] = x.term
 	}
-	return fmt.Sprintf("(%s, %s)", hx.Bool(s.persisted), hx.List(st))
+	first := "None"
+	if s.first != nil {
+		first = "(Some " + ccFresList(s.first) + ")"
+	}
+	return fmt.Sprintf("(%s, %s, %s)", hx.Bool(s.persisted), first, hx.List(st))
 }
 
 func (s *ccSession) soloTerm() string {
@@ -721,6 +744,44 @@ func ccGenHistory(r *rand.Rand, sels []string, n int) [][]byte {
 	return h
 }
 
+// the entry function of session id: its content names the session, so that no two sessions have the same
+func ccGenFirst(r *rand.Rand, id int, flagCount uint32) []ccFres {
+	n := 1 + r.Intn(2)
+	var sc []ccFres
+	for j := 0; j < n; j++ {
+		f := ccFres{Content: fmt.Sprintf("first-s%d-%d", id, j)}
+		if flagCount > 0 && r.Intn(2) == 0 {
+			f.Set = []uint32{8 + uint32((id+j)%int(flagCount))}
+		}
+		if flagCount > 0 && r.Intn(4) == 0 {
+			f.Reset = []uint32{8 + uint32((id+j+1)%int(flagCount))}
+		}
+		if r.Intn(12) == 0 {
+			f.Set = append(f.Set, state.FLAG_TERMINATE)
+		}
+		if r.Intn(10) == 0 {
+			f.Echo = true
+		}
+		if r.Intn(30) == 0 {
+			f.Fail = true
+			f.Status = 1
+		}
+		sc = append(sc, f)
+	}
+	return sc
+}
+
+// share of the sessions that get an entry function: percent
+func ccGenFirsts(r *rand.Rand, k int, flagCount uint32, percent int) [][]ccFres {
+	firsts := make([][]ccFres, k)
+	for j := 0; j < k; j++ {
+		if r.Intn(100) < percent {
+			firsts[j] = ccGenFirst(r, j, flagCount)
+		}
+	}
+	return firsts
+}
+
 // ---- application cases -----------------------------------------------------------------------------
 
 type ccRun struct {
@@ -731,13 +792,16 @@ type ccRun struct {
 }
 
 // serve the histories alone, one session after the other, on a private copy of the application data
-func ccSolo(g ccGen, pers []bool, hist [][][]byte) ([]*ccSession, error) {
+func ccSolo(g ccGen, pers []bool, firsts [][]ccFres, hist [][][]byte) ([]*ccSession, error) {
 	var out []*ccSession
 	for i := range hist {
 		sh := ccMakeShared(g.app)
 		s, err := ccNewSession(g.app, g.cfg, sh, i, pers[i])
 		if err != nil {
 			return nil, err
+		}
+		if firsts != nil {
+			s.withFirst(firsts[i])
 		}
 		for _, in := range hist[i] {
 			if !s.request(in) {
@@ -750,7 +814,7 @@ func ccSolo(g ccGen, pers []bool, hist [][][]byte) ([]*ccSession, error) {
 }
 
 // a random interleaving on one goroutine
-func ccInterleaved(r *rand.Rand, g ccGen, pers []bool, hist [][][]byte) (*ccRun, error) {
+func ccInterleaved(r *rand.Rand, g ccGen, pers []bool, firsts [][]ccFres, hist [][][]byte) (*ccRun, error) {
 	sh := ccMakeShared(g.app)
 	run := &ccRun{}
 	pos := make([]int, len(hist))
@@ -758,6 +822,9 @@ func ccInterleaved(r *rand.Rand, g ccGen, pers []bool, hist [][][]byte) (*ccRun,
 		s, err := ccNewSession(g.app, g.cfg, sh, i, pers[i])
 		if err != nil {
 			return nil, err
+		}
+		if firsts != nil {
+			s.withFirst(firsts[i])
 		}
 		run.sessions = append(run.sessions, s)
 	}
@@ -782,13 +849,16 @@ func ccInterleaved(r *rand.Rand, g ccGen, pers []bool, hist [][][]byte) (*ccRun,
 }
 
 // one goroutine per session, started together
-func ccConcurrent(g ccGen, pers []bool, hist [][][]byte) (*ccRun, error) {
+func ccConcurrent(g ccGen, pers []bool, firsts [][]ccFres, hist [][][]byte) (*ccRun, error) {
 	sh := ccMakeShared(g.app)
 	run := &ccRun{}
 	for i := range hist {
 		s, err := ccNewSession(g.app, g.cfg, sh, i, pers[i])
 		if err != nil {
 			return nil, err
+		}
+		if firsts != nil {
+			s.withFirst(firsts[i])
 		}
 		run.sessions = append(run.sessions, s)
 	}
@@ -1235,7 +1305,7 @@ func ccSelftest() (string, map[string]int, error) {
 	if err != nil {
 		return "", nil, err
 	}
-	soloc, err := ccSolo(g, []bool{false, false}, hist)
+	soloc, err := ccSolo(g, []bool{false, false}, nil, hist)
 	if err != nil {
 		return "", nil, err
 	}
@@ -1319,11 +1389,13 @@ func ccRunAlias(o opts) error {
 			}
 			hist[j] = ccGenHistory(r, g.sels, hn)
 		}
-		run, err := ccInterleaved(r, g, pers, hist)
+		// 40 % of the sessions get an entry function of their own (per-request engines run it on every request)
+		firsts := ccGenFirsts(hx.Rng(o.seed, "alias-first", i), k, g.cfg.FlagCount, 40)
+		run, err := ccInterleaved(r, g, pers, firsts, hist)
 		if err != nil {
 			return err
 		}
-		solo, err := ccSolo(g, pers, hist)
+		solo, err := ccSolo(g, pers, firsts, hist)
 		if err != nil {
 			return err
 		}
@@ -1471,7 +1543,17 @@ func ccRunRace(o opts) error {
 			}
 			hist[j] = ccGenHistory(r, g.sels, hn)
 		}
-		solo, err := ccSolo(g, pers, hist)
+		// 70 % of the sessions get an entry function of their own: long-lived engines run it in their first
+		// Exec only, and the goroutines are released together, so the first Execs coincide
+		firsts := ccGenFirsts(hx.Rng(o.seed, "race-first", i), k, g.cfg.FlagCount, 70)
+		nf := 0
+		for _, f := range firsts {
+			if f != nil {
+				nf++
+			}
+		}
+		w.Count(fmt.Sprintf("sessions_with_first_%v", nf > 0))
+		solo, err := ccSolo(g, pers, firsts, hist)
 		if err != nil {
 			return err
 		}
@@ -1479,7 +1561,7 @@ func ccRunRace(o opts) error {
 		// each time); the case printed is the first run the Go copy of the monitor objects to, else the first
 		var run *ccRun
 		for rep := 0; rep < reps; rep++ {
-			rr, err := ccConcurrent(g, pers, hist)
+			rr, err := ccConcurrent(g, pers, firsts, hist)
 			if err != nil {
 				return err
 			}
